@@ -210,6 +210,8 @@ def plan_add(w: World, op: dict) -> Plan:
             new_tops.append(copy_subtree(t, uidgen, deep=eff_deep))
         child_real = real_src
         trigger += "/tree"
+        if typed and any(t.kind != DEFAULT_KIND for t in new_tops):
+            trigger += "/typed-nokind"
         owner = "C07"
     elif "node" in src:
         sj, nm = w.mnode(src["node"])
@@ -234,6 +236,8 @@ def plan_add(w: World, op: dict) -> Plan:
             k2 = kind  # None -> keep the source's kind (C07)
         new_tops.append(copy_subtree(nm, uidgen, deep=eff_deep, kind=k2))
         trigger += "/node-deep" if eff_deep else "/node"
+        if typed and k2 is None and nm.kind != DEFAULT_KIND:
+            trigger += "/typed-nokind"
         if sj == si and nm.parent is not P and nm.parent is P.parent:
             trigger += "/sibling-of-target"
         owner = "C07"
@@ -426,9 +430,6 @@ def plan_remove(w: World, op: dict) -> Plan:
                         return_excl = True
             if return_excl:
                 return Plan(EXCLUDED, why="keep_children+with_clones same parent")
-        if with_kids and mt.typed:
-            return Plan(REFUSE, why="typed-unsupported(move_to)", refuse=ANY, call=call,
-                        trigger=trigger + "/typed-unsupported", slots=(si,))
         if any(_unnest_collides(g) for g in with_kids):
             return Plan(REFUSE, why="duplicate-sibling", refuse=UNIQUE, call=call,
                         trigger=trigger + "/duplicate-sibling", slots=(si,))
